@@ -19,6 +19,7 @@ mod props_c01;
 mod props_chain;
 mod props_fault;
 mod props_mclmc;
+mod props_leapfrog_real;
 mod props_posterior;
 mod props_sched;
 mod props_stationary;
